@@ -172,6 +172,9 @@ class uamiv(ioapi_base):
 
         self.SDATE, self.STIME = self.variables['TFLAG'][0, 0, :]
         self.TSTEP = etflagv[0, 0, 1] - tflagv[0, 0, 1]
+        if etflagv[0, 0, 0] != tflagv[0, 0, 0]:
+            # the first step ends on the next day
+            self.TSTEP = self.TSTEP + 240000
         if P_ALP is not None:
             self.P_ALP = P_ALP
         if P_BET is not None:
